@@ -8,6 +8,8 @@ the negation, NocaseDict eq/hash fold keys through one function.
 import ast
 import re
 
+from ..cfg import stmt_facts
+
 from ..model import (AnalysisError, walk_no_nested, dotted, const_str, norm,
                      last_attr)
 
@@ -139,6 +141,18 @@ def copy_attrs(cls, func):
                     problems.append((n, 'result.%s receives self.%s'
                                      % (n.targets[0].attr, at)))
     return attrs, problems
+
+
+def _direct_results(e):
+    """the sub-expressions an expression may evaluate to as a whole
+    (through conditional expressions and and/or)"""
+    if e is None:
+        return []
+    if isinstance(e, ast.IfExp):
+        return _direct_results(e.body) + _direct_results(e.orelse)
+    if isinstance(e, ast.BoolOp):
+        return [x for v in e.values for x in _direct_results(v)]
+    return [e]
 
 
 def _root_attr(node):
@@ -391,6 +405,57 @@ def run(repo, rep, tier):
                                         'setter stores the caller\'s object '
                                         'itself: copy() shares the mutable '
                                         '%r with the original' % a)
+            # R5b: a setter that stores F(value, ...) gets a fresh object
+            # only if F never hands a mutable argument back: a `return
+            # <param>` of F under isinstance(<param>, list) aliases the
+            # caller's list
+            for a in sorted(mutable):
+                st = cls.setters.get(a)
+                if st is None:
+                    continue
+                param = [p for p in st.params if p != 'self'][0]
+                for n in walk_no_nested(st.node):
+                    if not (isinstance(n, ast.Assign) and
+                            any(_self_attr(t) == '_' + a
+                                for t in n.targets) and
+                            isinstance(n.value, ast.Call) and
+                            isinstance(n.value.func, ast.Name) and
+                            n.value.args and
+                            isinstance(n.value.args[0], ast.Name) and
+                            n.value.args[0].id == param):
+                        continue
+                    callee = cls.module.functions.get(n.value.func.id)
+                    if callee is None:
+                        continue
+                    cp0 = callee.params[0]
+                    cfacts = stmt_facts(callee.node)
+                    r5.functions.add(callee.fq)
+                    for rt in walk_no_nested(callee.node):
+                        if not (isinstance(rt, ast.Return) and any(
+                                isinstance(x, ast.Name) and x.id == cp0
+                                for x in _direct_results(rt.value))):
+                            continue
+                        pos = cfacts.get(rt, ((), ()))[0]
+                        alias = any(
+                            pol and isinstance(t, ast.Call) and
+                            dotted(t.func) == 'isinstance' and
+                            norm(t.args[0]) == cp0 and
+                            any(x in ('list', 'dict', 'NocaseDict')
+                                for x in re.findall(r'\w+',
+                                                    norm(t.args[1])))
+                            for t, pol in pos)
+                        r5.ob(not alias, '%s.%s:%s-return' % (
+                            cname, a, callee.name),
+                            {'setter': st.qualname, 'callee': callee.name,
+                             'return': norm(rt), 'aliases_list': alias})
+                        if alias:
+                            rep.finding(
+                                r5, callee.qualname, norm(rt),
+                                'aliased-list', path, rt.lineno,
+                                '%s() can return the caller\'s list itself; '
+                                'the %s setter of %s stores it, so an '
+                                'object and its copy() share the array '
+                                'value' % (callee.name, a, cname))
             # R7: transfer without interference
             init = cls.find_method('__init__')
             if cp is not None and init is not None and cpt:
